@@ -126,11 +126,15 @@ def _sets_more_stop(node):
     if node.kind != 'stmt' or not isinstance(node.ast, dict): return False
     am = U.assigned_member(node.ast)
     if not am or am[0] != 'more_': return False
-    rhs = A.strip(am[1], casts=True)
-    if rhs is None: return False
-    if A.const(rhs) == 0: return True
-    if rhs.get('k') == 'UnaryOperator' and rhs.get('op') == '!' and A.ref_name(rhs.get('sub')) == 'cursor_mode_': return True
-    return False
+    def stop_value(rhs):
+        rhs = A.strip(rhs, casts=True)
+        if rhs is None: return False
+        if A.const(rhs) == 0: return True
+        if rhs.get('k') == 'UnaryOperator' and rhs.get('op') == '!' and A.ref_name(rhs.get('sub')) == 'cursor_mode_': return True
+        # `cond ? false : !cursor_mode_`: both arms stop a cursor
+        if rhs.get('k') == 'ConditionalOperator': return stop_value(rhs.get('then')) and stop_value(rhs.get('else'))
+        return False
+    return stop_value(am[1])
 
 def r03_5(chk, tier):
     chk.rule('R03.5', 'cursor stop pairing: in the five event-producing parsers every visitor event emission is followed, on every path to '
@@ -201,6 +205,17 @@ def r03_6(chk, tier):
                             if t_edges and any(x.kind == 'stmt' and U.assigned_member(x.ast) and U.assigned_member(x.ast)[0] == 'more_' and A.const(U.assigned_member(x.ast)[1]) == 0
                                                for x in guards_region(g, t_edges[0])):
                                 ok = True
+                # the same decision written as a conditional expression: more_ = (level == mark_level_) ? false : ...
+                for m in g.rpo:
+                    if ok or m.kind != 'stmt' or not isinstance(m.ast, dict) or nd is None: continue
+                    am = U.assigned_member(m.ast)
+                    if not am or am[0] != 'more_' or not (g.can_reach(nd, [m]) or g.can_reach(m, [nd])): continue
+                    rhs = A.strip(am[1], casts=True)
+                    if rhs is not None and rhs.get('k') == 'ConditionalOperator' and 'mark_level' in A.text(rhs.get('cond')):
+                        cc = A.strip(rhs.get('cond'), casts=True)
+                        if cc is not None and cc.get('k') == 'BinaryOperator' and cc.get('op') in ('==', '!='):
+                            arm = rhs.get('then') if cc['op'] == '==' else rhs.get('else')
+                            if A.const(arm) == 0: ok = True
                 facts_ = {'function': fn['q'], 'line': c.get('l')}
                 # the test must see the level the container was opened at: no decrement of a level counter between the previous
                 # event and the close, nor between the close and its mark-level test
